@@ -22,7 +22,8 @@ func init() {
 			"R3 client verification: in ociclient's blobReader.Read every return whose error may be io.EOF holds !verify or (size equal and digest equal) (disjunctive path facts), and the unverified reader is constructed only by the range read; " +
 			"R4 server digest gate: in the manifest-PUT handler the backend push is dominated by tag != \"\" or Digest(request digest) == FromBytes(body), with that same body; " +
 			"R5 immutability: no store through an index of blob.data or Buffer.buf, and the bytes put into a stored blob never alias a caller-owned parameter slice (they are an io.ReadAll result, a fresh append([]byte(nil), ...) copy, or the upload buffer). " +
-			"R6 range dispatch: the server's blob GET handler serves the whole blob only when the unmodified parse of the Range header is empty and hands the backend the start/end of that parsed range.",
+			"R6 range dispatch: the server's blob GET handler serves the whole blob only when the unmodified parse of the Range header is empty and hands the backend the start/end of that parsed range. " +
+			"R4b the manifest bytes pushed are the whole request body (io.ReadAll of req.Body, or a capped read followed by a length test); R3b the body behind the verifying reader is consumed only by blobReader.Read (no WriteTo-style bypass).",
 		NotDecided: "byte equality of round trips, the range-slice arithmetic (bounds are proven under C06/C18 but not which slice), Range/Content-Range formatting (the upload Content-Range codec is not its own inverse for a one-byte body: RangeString(0,1) = \"0-0\" parses back as length 0 — a value-level defect outside this technique, noted in DESIGN.md) and the behaviour of a corrupting server beyond R3.",
 		Technique:  "static analysis: SSA dominance of verification calls over stores, disjunctive path facts for EOF returns, provenance/aliasing of stored byte slices",
 	})
